@@ -593,3 +593,367 @@ Proof.
   - exact P.
   - rewrite P. simpl. rewrite E. replace (1 + 1 - (1 + 1) * / 2) with 1 by lra. rewrite Rabs_R1. lra.
 Qed.
+
+(* ------------------------------------------------------------------ *)
+(* prior-mixing variant: structural part (any arithmetic) *)
+Require Import Sorted.
+
+Lemma nth_skipn' {A} (l : list A) n r d : nth r (skipn n l) d = nth (n + r) l d.
+Proof. revert l; induction n; intro l; [reflexivity|]. destruct l; [destruct r; reflexivity | apply IHn]. Qed.
+
+Lemma map_snd_combine {A B} (l : list A) (l' : list B) :
+  length l = length l' -> map snd (combine l l') = l'.
+Proof. revert l'; induction l; destruct l'; simpl; intro H; try congruence. f_equal. apply IHl. lia. Qed.
+
+Lemma map_const_repeat {A B} (c : B) (l : list A) : map (fun _ => c) l = repeat c (length l).
+Proof. induction l; simpl; congruence. Qed.
+
+Lemma in_combine_seq {A} (l : list A) s k i d :
+  In (k, i) (combine l (seq s (length l))) -> (s <= i < s + length l)%nat /\ nth (i - s) l d = k.
+Proof.
+  revert s; induction l as [|a l IH]; intros s H; [destruct H|]. simpl in H. destruct H as [H|H].
+  - inversion H; subst. split; [simpl; lia|]. rewrite Nat.sub_diag. reflexivity.
+  - apply IH in H. destruct H as [H1 H2]. split; [simpl; lia|].
+    replace (i - s)%nat with (Datatypes.S (i - Datatypes.S s)) by lia. exact H2.
+Qed.
+
+Lemma nth_repeat_lt {A} (a d : A) m j : (j < m)%nat -> nth j (repeat a m) d = a.
+Proof. revert j; induction m; intros j H; [lia|]. destruct j; simpl; auto. apply IHm. lia. Qed.
+
+Lemma pick_length {A} (q : list A) (k : list nat) : q <> [] ->
+  length (match q with [] => [] | d :: _ => map (fun i => nth i q d) k end) = length k.
+Proof. destruct q; [congruence|]. intros _. apply map_length. Qed.
+
+Lemma pick_nth {A} (q : list A) (k : list nat) r d : q <> [] -> (r < length k)%nat -> (nth r k 0 < length q)%nat ->
+  nth r (match q with [] => [] | d0 :: _ => map (fun i => nth i q d0) k end) d = nth (nth r k 0%nat) q d.
+Proof.
+  destruct q as [|p0 q']; [congruence|]. intros _ Hr Hq. set (f := fun i => nth i (p0 :: q') p0).
+  rewrite (nth_indep (map f k) d (f 0%nat)) by (rewrite map_length; auto).
+  rewrite (map_nth f k 0%nat r). unfold f. apply nth_indep. exact Hq.
+Qed.
+
+Section PriorStructural.
+Variable S : SOps.
+
+Lemma ins_perm x l : Permutation (ins S x l) (x :: l).
+Proof.
+  induction l as [|h t IH]; simpl; auto. destruct (sleb S (fst x) (fst h)); auto.
+  apply perm_trans with (h :: x :: t); [apply perm_skip; auto | apply perm_swap].
+Qed.
+
+Lemma fold_ins_perm L : Permutation (fold_right (ins S) [] L) L.
+Proof. induction L; simpl; auto. apply perm_trans with (a :: fold_right (ins S) [] L); [apply ins_perm | auto]. Qed.
+
+Lemma sort_pairs_perm keys : Permutation (sort_pairs S keys) (combine keys (seq 0 (length keys))).
+Proof. apply fold_ins_perm. Qed.
+
+Lemma sort_idx_perm keys : Permutation (sort_idx S keys) (seq 0 (length keys)).
+Proof.
+  unfold sort_idx. rewrite <- (map_snd_combine keys (seq 0 (length keys))) at 1 by (rewrite seq_length; auto).
+  apply Permutation_map, sort_pairs_perm.
+Qed.
+
+Lemma sort_idx_length keys : length (sort_idx S keys) = length keys.
+Proof. rewrite (Permutation_length (sort_idx_perm keys)). apply seq_length. Qed.
+
+Lemma sort_idx_range keys a : (a < length keys)%nat -> (nth a (sort_idx S keys) 0 < length keys)%nat.
+Proof.
+  intro H. assert (I : In (nth a (sort_idx S keys) 0%nat) (sort_idx S keys)) by (apply nth_In; rewrite sort_idx_length; auto).
+  apply (Permutation_in _ (sort_idx_perm keys)) in I. apply in_seq in I. lia.
+Qed.
+
+Lemma floor_upto_le n x : (floor_upto S n x <= n)%nat.
+Proof. induction n; simpl; auto. destruct (sleb S (sofnat S (Datatypes.S n)) x); lia. Qed.
+
+Lemma num_prior_le N ratio : (num_prior S N ratio <= N)%nat.
+Proof. apply floor_upto_le. Qed.
+
+Section Shape.
+Context {P : Type}.
+Variables (init : nat -> list P) (ratio : T S) (ps : list P) (lw : list (T S)) (u1 : T S).
+Notation N := (length ps).
+Notation np := (num_prior S N ratio).
+Notation srt := (sort_idx S (map (sexp S) lw)).
+Hypothesis Hlen : length lw = N.
+Hypothesis Npos : (0 < N)%nat.
+(* contract of ParticleSetInitialization::initialize: the size of the set is kept *)
+Hypothesis Hinit : length (init np) = np.
+
+Definition tmp_lw : list (T S) := lse_normalise S (map (fun i => nth i lw (s0 S)) (skipn np srt)).
+Definition tmp_ps : list P := match ps with [] => [] | d :: _ => map (fun i => nth i ps d) (skipn np srt) end.
+Definition rpar : list nat := res_parents S tmp_lw u1.
+
+Lemma resample_prior_eq :
+  @resample_prior S P init ratio ps lw u1 =
+  (mkPset (np + (N - np))
+          (init np ++ fst (fst (@resample S P tmp_ps tmp_lw u1)))
+          (map (fun _ => log_uniform S N)
+               (repeat (sdiv S (s1 S) (sofnat S np)) np ++ map (fun _ => log_uniform S (length tmp_lw)) rpar)),
+   repeat (-1)%Z np ++ map (fun p => Z.of_nat (nth (p + np) srt 0%nat)) rpar).
+Proof. reflexivity. Qed.
+
+Lemma kept_length : length (skipn np srt) = (N - np)%nat.
+Proof. rewrite skipn_length, sort_idx_length, map_length, Hlen. reflexivity. Qed.
+Lemma tmp_lw_length : length tmp_lw = (N - np)%nat.
+Proof. unfold tmp_lw. rewrite lse_normalise_length, map_length. apply kept_length. Qed.
+Lemma tmp_ps_length : length tmp_ps = (N - np)%nat.
+Proof. unfold tmp_ps. rewrite pick_length; [apply kept_length|]. intro E; rewrite E in Npos; simpl in Npos; lia. Qed.
+Lemma rpar_length : length rpar = (N - np)%nat.
+Proof. unfold rpar. rewrite res_parents_length. apply tmp_lw_length. Qed.
+
+Lemma right_length : length (fst (fst (@resample S P tmp_ps tmp_lw u1))) = (N - np)%nat.
+Proof.
+  unfold resample. simpl fst. pose proof tmp_ps_length as H. destruct tmp_ps.
+  - simpl in H. simpl. lia.
+  - rewrite map_length. apply rpar_length.
+Qed.
+
+Lemma prior_reports_N :
+  let r := fst (@resample_prior S P init ratio ps lw u1) in
+  pcount r = N /\ length (pparts r) = N /\ length (plw r) = N /\
+  length (snd (@resample_prior S P init ratio ps lw u1)) = N.
+Proof.
+  rewrite resample_prior_eq. cbv zeta. cbn [fst snd pcount pparts plw]. pose proof (num_prior_le N ratio).
+  rewrite !app_length, !map_length, !app_length, !repeat_length, !map_length, right_length, Hinit, rpar_length.
+  repeat split; lia.
+Qed.
+
+Lemma prior_uniform :
+  plw (fst (@resample_prior S P init ratio ps lw u1)) = repeat (log_uniform S N) N.
+Proof.
+  rewrite resample_prior_eq. cbn [fst snd pcount pparts plw]. rewrite map_const_repeat. f_equal.
+  rewrite app_length, repeat_length, map_length, rpar_length. pose proof (num_prior_le N ratio). lia.
+Qed.
+
+Lemma prior_parents_left j : (j < np)%nat ->
+  nth j (snd (@resample_prior S P init ratio ps lw u1)) 0%Z = (-1)%Z.
+Proof.
+  intro H. rewrite resample_prior_eq. cbn [fst snd]. rewrite app_nth1 by (rewrite repeat_length; auto).
+  apply nth_repeat_lt; auto.
+Qed.
+
+Lemma rpar_range j : (j < N - np)%nat -> (nth j rpar 0 < N - np)%nat.
+Proof.
+  intro H. assert (nth j rpar 0 <= length tmp_lw - 1)%nat.
+  { apply res_loop_le; [lia | rewrite tmp_lw_length; auto]. }
+  rewrite tmp_lw_length in H0. lia.
+Qed.
+
+(* parent of a resampled particle: the original index found at a kept position of the sorted order *)
+Lemma prior_parents_right j : (j < N - np)%nat ->
+  nth (np + j) (snd (@resample_prior S P init ratio ps lw u1)) 0%Z
+  = Z.of_nat (nth (np + nth j rpar 0%nat) srt 0%nat)
+  /\ (np + nth j rpar 0 < N)%nat /\ (nth (np + nth j rpar 0%nat) srt 0 < N)%nat.
+Proof.
+  intro H. pose proof (rpar_range j H) as Hr. split; [|split].
+  - rewrite resample_prior_eq. cbn [fst snd]. rewrite app_nth2 by (rewrite repeat_length; lia).
+    rewrite repeat_length. replace (np + j - np)%nat with j by lia.
+    rewrite (nth_indep _ 0%Z (Z.of_nat (nth (0 + np) srt 0%nat))) by (rewrite map_length, rpar_length; auto).
+    rewrite (map_nth (fun p => Z.of_nat (nth (p + np) srt 0%nat)) rpar 0%nat j).
+    f_equal. f_equal. lia.
+  - lia.
+  - rewrite <- Hlen at 2. rewrite <- (map_length (sexp S) lw). apply sort_idx_range. rewrite map_length, Hlen. lia.
+Qed.
+
+(* every resampled particle is an exact copy of the parent it reports *)
+Lemma prior_copy j d : (j < N - np)%nat ->
+  nth (np + j) (pparts (fst (@resample_prior S P init ratio ps lw u1))) d
+  = nth (Z.to_nat (nth (np + j) (snd (@resample_prior S P init ratio ps lw u1)) 0%Z)) ps d.
+Proof.
+  intro H. destruct (prior_parents_right j H) as [E [R1 R2]]. rewrite E, Nat2Z.id.
+  rewrite resample_prior_eq. cbn [fst snd pparts].
+  rewrite app_nth2 by lia. rewrite Hinit. replace (np + j - np)%nat with j by lia.
+  pose proof (@resample_copy S P tmp_ps tmp_lw u1 d j) as C.
+  assert (Hne : tmp_ps <> []).
+  { intro E0. pose proof tmp_ps_length as L. rewrite E0 in L. simpl in L. lia. }
+  specialize (C Hne ltac:(rewrite tmp_lw_length; auto) ltac:(rewrite tmp_ps_length, tmp_lw_length; auto)).
+  unfold resample in C |- *. simpl fst. rewrite C. fold rpar.
+  pose proof (rpar_range j H) as Hr.
+  unfold tmp_ps. rewrite pick_nth.
+  - rewrite nth_skipn'. reflexivity.
+  - intro E0; rewrite E0 in Npos; simpl in Npos; lia.
+  - rewrite kept_length; auto.
+  - rewrite nth_skipn'. exact R2.
+Qed.
+
+End Shape.
+End PriorStructural.
+
+(* ------------------------------------------------------------------ *)
+(* prior-mixing variant over the reals: the sort really sorts, the floor is the floor *)
+Section PriorReals.
+Variable e : R -> R.
+Notation SE := (ROpsE e).
+
+Definition key_le (p q : R * nat) : Prop := fst p <= fst q.
+
+Lemma ins_sorted (x : R * nat) l : StronglySorted key_le l -> StronglySorted key_le (ins SE x l).
+Proof.
+  induction l as [|h t IH]; intro Hs; simpl.
+  - constructor; constructor.
+  - change (sleb SE (fst x) (fst h)) with (Rleb (fst x) (fst h)).
+    inversion Hs as [|? ? Hs' Hf]; subst.
+    destruct (Rleb (fst x) (fst h)) eqn:E.
+    + apply Rleb_true in E. constructor; auto. constructor; auto.
+      eapply Forall_impl; [|exact Hf]. intros q Hq. unfold key_le in *. lra.
+    + apply Rleb_false in E. constructor; auto.
+      apply (Permutation_Forall (Permutation_sym (ins_perm SE x t))).
+      constructor; auto. unfold key_le. lra.
+Qed.
+
+Lemma sort_pairs_sorted (keys : list R) : StronglySorted key_le (sort_pairs SE keys).
+Proof.
+  unfold sort_pairs. match goal with |- StronglySorted _ (fold_right _ _ ?L0) => generalize L0 end. intro L.
+  induction L as [|x L IH]; [constructor|]. change (fold_right (ins SE) [] (x :: L)) with (ins SE x (fold_right (ins SE) [] L)).
+  apply ins_sorted; auto.
+Qed.
+
+Lemma StronglySorted_nth {A} (Rl : A -> A -> Prop) l d a b :
+  StronglySorted Rl l -> (a < b < length l)%nat -> Rl (nth a l d) (nth b l d).
+Proof.
+  intro Hs. revert a b. induction Hs as [|h t Hs IH Hf]; intros a b H; [simpl in H; lia|].
+  destruct b; [lia|]. destruct a.
+  - simpl. rewrite Forall_forall in Hf. apply Hf. apply nth_In. simpl in H. lia.
+  - simpl. apply IH. simpl in H. lia.
+Qed.
+
+(* the sorted indices are a permutation, ordered by non-decreasing weight e(lw_i) *)
+Lemma sort_idx_sorted (lw : list R) a b : (a <= b < length lw)%nat ->
+  e (nth (nth a (sort_idx SE (map e lw)) 0%nat) lw 0) <= e (nth (nth b (sort_idx SE (map e lw)) 0%nat) lw 0).
+Proof.
+  intro H. destruct (Nat.eq_dec a b) as [->|Hne]; [lra|].
+  set (keys := map e lw). set (prs := sort_pairs SE keys).
+  assert (Lp : length prs = length lw).
+  { unfold prs. rewrite (Permutation_length (sort_pairs_perm SE keys)), combine_length, seq_length.
+    unfold keys. rewrite map_length. lia. }
+  assert (K : forall c, (c < length lw)%nat ->
+                fst (nth c prs (0, 0%nat)) = e (nth (nth c (sort_idx SE keys) 0%nat) lw 0)).
+  { intros c Hc. unfold sort_idx. fold prs.
+    change 0%nat with (snd (0, 0%nat)) at 2. rewrite map_nth.
+    assert (I : In (nth c prs (0, 0%nat)) prs) by (apply nth_In; lia).
+    apply (Permutation_in _ (sort_pairs_perm SE keys)) in I.
+    destruct (nth c prs (0, 0%nat)) as [k i] eqn:Ek. simpl.
+    apply (in_combine_seq keys 0 k i 0) in I. destruct I as [I1 I2].
+    rewrite Nat.sub_0_r in I2. rewrite <- I2. unfold keys.
+    rewrite (nth_indep _ 0 (e 0)) by (rewrite map_length; unfold keys in I1; rewrite map_length in I1; lia).
+    apply map_nth. }
+  rewrite <- !K by lia.
+  assert (Hab : (a < b < length prs)%nat) by (rewrite Lp; lia).
+  exact (StronglySorted_nth key_le prs (0, 0%nat) a b (sort_pairs_sorted keys) Hab).
+Qed.
+
+Lemma floor_upto_spec n (x : R) : 0 <= x ->
+  INR (floor_upto SE n x) <= x /\ (floor_upto SE n x = n \/ x < INR (floor_upto SE n x) + 1).
+Proof.
+  intro Hx. induction n as [|k [IH1 IH2]].
+  - simpl. split; [lra | left; reflexivity].
+  - change (floor_upto SE (Datatypes.S k) x)
+      with (if Rleb (sofnat SE (Datatypes.S k)) x then Datatypes.S k else floor_upto SE k x).
+    rewrite sofnat_R. destruct (Rleb (INR (Datatypes.S k)) x) eqn:E.
+    + apply Rleb_true in E. split; auto.
+    + apply Rleb_false in E. split; auto. right. destruct IH2 as [->|IH2]; auto.
+      rewrite S_INR in E. exact E.
+Qed.
+
+(* num_prior_particles = floor(N * ratio), and at least one particle is resampled *)
+Lemma num_prior_spec N (ratio : R) : (0 < N)%nat -> 0 <= ratio < 1 ->
+  INR (num_prior SE N ratio) <= INR N * ratio < INR (num_prior SE N ratio) + 1 /\ (num_prior SE N ratio < N)%nat.
+Proof.
+  intros HN [r0 r1]. unfold num_prior. change (smul SE) with Rmult. rewrite sofnat_R.
+  assert (HNR : 0 < INR N) by (apply lt_0_INR; auto).
+  assert (Hx : 0 <= INR N * ratio) by nra.
+  destruct (floor_upto_spec N (INR N * ratio) Hx) as [F1 F2].
+  assert (Hlt : INR N * ratio < INR N) by nra.
+  pose proof (floor_upto_le SE N (INR N * ratio)) as Fle.
+  destruct F2 as [F2|F2].
+  - rewrite F2 in F1. lra.
+  - repeat split; auto. destruct (Nat.eq_dec (floor_upto SE N (INR N * ratio)) N) as [E|]; [|lia].
+    rewrite E in F1. lra.
+Qed.
+
+End PriorReals.
+
+(* ------------------------------------------------------------------ *)
+(* statements in the form used by Properties_C07.v *)
+Lemma advance_fuel_statement (S : SOps) c N u idx :
+  keep_going S c N u (advance S N c N u idx) = false /\
+  forall k, advance S (N + k) c N u idx = advance S N c N u idx.
+Proof. split; [apply advance_fuel_enough | intro k; apply advance_more_fuel; lia]. Qed.
+
+Lemma parents_sorted_statement (S : SOps) lw u1 a b :
+  (a <= b < length lw)%nat ->
+  (nth a (res_parents S lw u1) 0 <= nth b (res_parents S lw u1) 0)%nat.
+Proof. apply res_loop_mono. Qed.
+
+Lemma parents_in_range_statement (S : SOps) lw u1 j :
+  (j < length lw)%nat -> (nth j (res_parents S lw u1) 0 < length lw)%nat.
+Proof.
+  intro H. assert (nth j (res_parents S lw u1) 0 <= length lw - 1)%nat by (apply res_loop_le; lia). lia.
+Qed.
+
+Lemma uniform_weights_statement {P} (ps : list P) (lw : list R) u1 :
+  snd (fst (@resample ROps P ps lw u1)) = repeat (- ln (INR (length lw))) (length lw).
+Proof.
+  unfold resample. cbn [fst snd]. rewrite map_const_repeat, res_parents_length.
+  unfold log_uniform. rewrite (sofnat_R exp). reflexivity.
+Qed.
+
+Lemma count_bound_statement (e : R -> R) (lw : list R) (u1 : R) :
+  (forall x, 0 <= e x) -> (0 < length lw)%nat -> sumR (map e lw) = 1 -> 0 < u1 -> u1 * INR (length lw) < 1 ->
+  forall i, (i < length lw)%nat ->
+  Rabs (INR (count_occ Nat.eq_dec (res_parents (ROpsE e) lw u1) i) - INR (length lw) * e (nth i lw 0)) < 1.
+Proof. intros. apply count_bound; auto. Qed.
+
+Lemma selection_interval_statement (e : R -> R) (lw : list R) (u1 : R) :
+  (forall x, 0 <= e x) -> (0 < length lw)%nat -> sumR (map e lw) = 1 -> 0 < u1 -> u1 * INR (length lw) < 1 ->
+  forall t, (t < length lw)%nat ->
+  let p := nth t (res_parents (ROpsE e) lw u1) 0%nat in
+  (p < length lw)%nat /\
+  psum (map e lw) p < u1 + INR t / INR (length lw) <= psum (map e lw) (Datatypes.S p).
+Proof. intros. apply (parent_interval e lw u1); auto. Qed.
+
+Lemma zero_weight_statement (e : R -> R) (lw : list R) (u1 : R) :
+  (forall x, 0 <= e x) -> (0 < length lw)%nat -> sumR (map e lw) = 1 -> 0 < u1 -> u1 * INR (length lw) < 1 ->
+  forall i, (i < length lw)%nat -> e (nth i lw 0) = 0 -> ~ In i (res_parents (ROpsE e) lw u1).
+Proof. intros. apply zero_weight_not_selected; auto. Qed.
+
+Lemma heavy_statement (e : R -> R) (lw : list R) (u1 : R) :
+  (forall x, 0 <= e x) -> (0 < length lw)%nat -> sumR (map e lw) = 1 -> 0 < u1 -> u1 * INR (length lw) < 1 ->
+  forall i, (i < length lw)%nat -> / INR (length lw) <= e (nth i lw 0) -> In i (res_parents (ROpsE e) lw u1).
+Proof. intros. apply heavy_selected; auto. Qed.
+
+Lemma exp_nonneg x : 0 <= exp x. Proof. left; apply exp_pos. Qed.
+
+Lemma partition_statement (e : R -> R) (lw : list R) (ratio : R) :
+  let N := length lw in
+  let np := num_prior (ROpsE e) N ratio in
+  let srt := sort_idx (ROpsE e) (map e lw) in
+  Permutation srt (seq 0 N) /\
+  forall a b, (a < np)%nat -> (np <= b < N)%nat ->
+    e (nth (nth a srt 0%nat) lw 0) <= e (nth (nth b srt 0%nat) lw 0).
+Proof.
+  intros N np srt. split.
+  - unfold srt, N. rewrite <- (map_length e lw). apply sort_idx_perm.
+  - intros a b Ha Hb. apply sort_idx_sorted. unfold N in *. lia.
+Qed.
+
+Lemma prior_parents_statement (e : R -> R) {P} (init : nat -> list P) (ratio : R) (ps : list P) (lw : list R) (u1 : R) :
+  length lw = length ps -> (0 < length ps)%nat ->
+  length (init (num_prior (ROpsE e) (length ps) ratio)) = num_prior (ROpsE e) (length ps) ratio ->
+  let N := length ps in
+  let np := num_prior (ROpsE e) N ratio in
+  let srt := sort_idx (ROpsE e) (map e lw) in
+  let par := snd (@resample_prior (ROpsE e) P init ratio ps lw u1) in
+  length par = N /\
+  (forall j, (j < np)%nat -> nth j par 0%Z = (-1)%Z) /\
+  (forall j, (np <= j < N)%nat ->
+     exists b, (np <= b < N)%nat /\ nth j par 0%Z = Z.of_nat (nth b srt 0%nat) /\ (nth b srt 0 < N)%nat).
+Proof.
+  intros Hlen Npos Hinit N np srt par. split; [|split].
+  - apply (prior_reports_N (ROpsE e) init ratio ps lw u1 Hlen Npos Hinit).
+  - intros j Hj. apply prior_parents_left; auto.
+  - intros j Hj. unfold par, srt, np, N in *.
+    destruct (prior_parents_right (ROpsE e) init ratio ps lw u1 Hlen Npos Hinit (j - num_prior (ROpsE e) (length ps) ratio)) as [E [R1 R2]]; [lia|].
+    replace (num_prior (ROpsE e) (length ps) ratio + (j - num_prior (ROpsE e) (length ps) ratio))%nat with j in E by lia.
+    eexists. split; [|split; [exact E | exact R2]]. lia.
+Qed.
